@@ -300,6 +300,10 @@ impl FixtureDatabase {
             );
 
             let mut new_modules: HashSet<std::path::PathBuf> = HashSet::new();
+            // Files that became plugin files after their own imports had been walked:
+            // they are walked once more so that plugin status reaches what they import,
+            // whatever the order in which the files of a round are visited.
+            let mut revisit: HashSet<std::path::PathBuf> = HashSet::new();
 
             for file_path in &files_to_check {
                 if processed_files.contains(file_path) {
@@ -350,6 +354,9 @@ impl FixtureDatabase {
                                 if self.file_cache.contains_key(&canonical) {
                                     reanalyze_as_plugin.insert(canonical.clone());
                                 }
+                                if processed_files.contains(&canonical) {
+                                    revisit.insert(canonical.clone());
+                                }
                             }
 
                             if !processed_files.contains(&canonical)
@@ -381,6 +388,9 @@ impl FixtureDatabase {
                                 if self.file_cache.contains_key(&canonical) {
                                     reanalyze_as_plugin.insert(canonical.clone());
                                 }
+                                if processed_files.contains(&canonical) {
+                                    revisit.insert(canonical.clone());
+                                }
                             }
 
                             if !processed_files.contains(&canonical)
@@ -393,7 +403,11 @@ impl FixtureDatabase {
                 }
             }
 
-            if new_modules.is_empty() {
+            for path in &revisit {
+                processed_files.remove(path);
+            }
+
+            if new_modules.is_empty() && revisit.is_empty() {
                 debug!("No new modules found in iteration {}", iteration);
                 break;
             }
@@ -420,7 +434,7 @@ impl FixtureDatabase {
             }
 
             // Next iteration will check the newly analyzed modules for their imports
-            files_to_check = new_modules.into_iter().collect();
+            files_to_check = new_modules.into_iter().chain(revisit).collect();
         }
 
         // Re-analyze modules that were already cached but newly marked as
